@@ -38,22 +38,67 @@ def act_mass(kind):
             "ion_DT": mass_sym("D") - me}[kind]
 
 
-def action(I, w, name):
-    """Parse action *name* of formula_grammar: the closure attached to the grammar that formula_grammar(table) builds
-    (so helpers local to formula_grammar are in its scope)."""
+PROBES = (("plain", "Fe"), ("convert_by_weight", "30wt% Fe // Co"), ("convert_by_volume", "30vol% Fe // Co"),
+          ("convert_by_layer", "3nm Fe // 2nm Co"), ("convert_by_absmass", "3g Fe // 2g Co"),
+          ("convert_mixture", "(30wt% Fe // Co)@2"))
+
+
+def grammar_roles(I, w):
+    """The parse actions of the grammar that formula_grammar(table) builds, identified by what they do rather than by
+    their names: probe strings are parsed on the PEG model and the named functions that fire are recorded.
+      convert_element  - the first function to fire on 'Fe';  convert_compound - the last one;
+      convert_by_*     - the function that fires on a wt% / vol% / layer / mass mixture and on no simpler probe;
+      convert_mixture  - the additional function that fires when the wt% mixture is parenthesised and tagged."""
     from ptstat import peg
-    cache = getattr(w, "_actions", None)
-    if cache is None:
-        gram = I.call(I.global_name("formulas", "formula_grammar"), [w.table], {})
-        cache = {}
-        for n in peg.Grammar(gram, I).nodes():
-            for fn in n.actions:
-                if isinstance(fn, Closure):
-                    cache[fn.qual.rsplit(".", 1)[-1]] = fn
-        w._actions = cache
-    if name not in cache:
-        raise AnalysisError(f"parse action {name} is not attached to the grammar built by formula_grammar")
-    return cache[name]
+    import ast as _ast
+    cache = getattr(w, "_roles", None)
+    if cache is not None:
+        return cache
+    gram = I.call(I.global_name("formulas", "formula_grammar"), [w.table], {})
+    G = peg.Grammar(gram, I)
+    fired = {}
+    for role, text in PROBES:
+        G.trace = []
+        try:
+            G.parse(text, all_=True)
+        except (SymRaise, AnalysisError):
+            pass                      # an action may fail on the probe's data (e.g. unknown density); it has fired all the same
+        named = []
+        for fn, node, start in G.trace:
+            if isinstance(fn, Closure) and isinstance(fn.node, (_ast.FunctionDef,)) and fn not in named:
+                named.append(fn)
+        fired[role] = named
+    G.trace = None
+    roles = {}
+    plain = fired["plain"]
+    if len(plain) >= 2:
+        roles["convert_element"], roles["convert_compound"] = plain[0], plain[-1]
+    seen = list(plain)
+    for role in ("convert_by_weight", "convert_by_volume", "convert_by_layer", "convert_by_absmass"):
+        new = [f for f in fired[role] if f not in plain]
+        if len(new) == 1:
+            roles[role] = new[0]
+    if "convert_by_weight" in roles:
+        new = [f for f in fired["convert_mixture"] if f not in plain and f is not roles["convert_by_weight"]]
+        if len(new) == 1:
+            roles["convert_mixture"] = new[0]
+    w._roles = roles
+    return roles
+
+
+def action(I, w, name):
+    """Parse action with the role *name* (see grammar_roles) of the grammar that formula_grammar(table) builds."""
+    roles = grammar_roles(I, w)
+    if name not in roles:
+        raise AnalysisError(f"no parse action with the role of {name} is attached to the grammar built by formula_grammar "
+                            f"(roles found: {sorted(roles)})")
+    return roles[name]
+
+
+def action_site(ctx, I, w, name):
+    """where the action with that role is defined (for reports)"""
+    fn = action(I, w, name)
+    return fsite(ctx, fn.qual)
 
 
 def _generic_arm(v, p):
@@ -120,7 +165,7 @@ def run(ctx):
     # tags through the parse actions
     pairs = [(q[0], a), (q[1], O)]
     cc = action(I, w, "convert_compound")
-    s_cc = fsite(ctx, "formulas.formula_grammar.convert_compound")
+    s_cc = action_site(ctx, I, w, "convert_compound")
     r = I.call(cc, ["<s>", 0, list(pairs) + [None]], {})
     ctx.check(I.getattr(r, "density") is None, "R2", "no '@' tag: density stays unknown", f"{_s(I.getattr(r, 'density'))}", s_cc)
     dict_eq(ctx, "R2", "convert_compound keeps the parsed pairs", I.getattr(r, "atoms"), comp, s_cc)
@@ -129,7 +174,7 @@ def run(ctx):
     r = I.call(cc, ["<s>", 0, list(pairs) + [d, "i"]], {})
     eq(ctx, "R2", "'@di' / '@d' tag is the isotopic density", I.getattr(r, "density"), d, s_cc)
     cmx = action(I, w, "convert_mixture")
-    s_cm = fsite(ctx, "formulas.formula_grammar.convert_mixture")
+    s_cm = action_site(ctx, I, w, "convert_mixture")
     for tag, wantd in (("n", d / ratio), ("i", d)):
         mix = I.call(fm, [dict(comp)], {"density": sp.Symbol("d0", positive=True)})
         r = I.call(cmx, ["<s>", 0, [mix, d, tag]], {})
